@@ -4,17 +4,19 @@
 import os, sys, json, shutil, subprocess
 ROOT = os.path.dirname(os.path.dirname(os.path.abspath(__file__)))
 x, prop = sys.argv[1], sys.argv[2]
-for v in 'AB':
-    src = f'/tmp/mut_{x}/{v}'
+rnd = sys.argv[3] if len(sys.argv) > 3 else ''     # '' = first round (/tmp/mut_x, ids x_a,x_b); '2' = second round (/tmp/mut2_x, ids x_c,x_d)
+names = {'': 'ab', '2': 'cd', '3': 'ef'}[rnd]
+for v, nm in zip('AB', names):
+    src = f'/tmp/mut{rnd}_{x}/{v}'
     if not os.path.isdir(src): print('missing', src); continue
-    d = os.path.join(ROOT, 'seeded', f'{x}_{v.lower()}'); os.makedirs(d, exist_ok=True)
+    d = os.path.join(ROOT, 'seeded', f'{x}_{nm}'); os.makedirs(d, exist_ok=True)
     for f in ('patch.diff', 'demo.c', 'meta.json'):
         shutil.copy(os.path.join(src, f), d)
-    r = subprocess.run([os.path.join(ROOT, 'tools', 'seed_verify.py'), f'{x}_{v.lower()}'], capture_output=True, text=True)
+    r = subprocess.run([os.path.join(ROOT, 'tools', 'seed_verify.py'), f'{x}_{nm}'], capture_output=True, text=True)
     print(r.stdout.strip().split('\n')[0])
     m = json.load(open(os.path.join(d, 'meta.json')))
     m['property_id'] = prop; m['origin'] = 'independent sub-agent given only the property text and a scratch worktree'
     m['what_i_ran'] = 'tools/seed_verify.py (scratch worktree: patch applies, make check passes, demo passes clean / fails changed); tools/seed_eval.py for the checks'
     json.dump(m, open(os.path.join(d, 'meta.json'), 'w'), indent=1)
-subprocess.run(['git', '-C', '/repo', 'worktree', 'remove', '--force', f'/tmp/wt_{x}'])
-shutil.rmtree(f'/tmp/mut_{x}', ignore_errors=True)
+subprocess.run(['git', '-C', '/repo', 'worktree', 'remove', '--force', f'/tmp/wt{rnd}_{x}'])
+shutil.rmtree(f'/tmp/mut{rnd}_{x}', ignore_errors=True)
